@@ -94,8 +94,17 @@ def _run(tier, seed):
                                     programs=programs):
             klist.append((k, group, cap))
     cases, meta = [], {}
+    def half_inputs(asg):
+        # two more inputs with about half of the cells stored (dimensions 2..3): rows in which some coordinates are
+        # contributed by one operand only - the patterns full / empty / singleton inputs cannot show
+        out = []
+        for sizes in ((2, 3), (3, 3)):
+            dims = kernels.choose_dims(asg, rng, sizes if max(len(lf["idx"]) for lf in exprs.leaves(asg["rhs"]) or [{"idx": []}]) < 4 else (2,))
+            out.append((dims, kernels.sample_content(asg, dims, rng, "half")))
+        return out
+
     for ki, (k, group, cap) in enumerate(klist):
-        for dims, content in pipeline.input_sets(k.asg, rng, P["inputs"]):
+        for dims, content in pipeline.input_sets(k.asg, rng, P["inputs"]) + half_inputs(k.asg):
             cid = len(cases) + 1
             cases.append(dict(kernels.base_case(k, cid, [dims], [content], script(k), "history"), nmaps=len(MAPS)))
             meta[cid] = {"kernel": ki, "text": k.text, "formats": k.formats, "cap": cap, "group": group, "dims": dims,
@@ -155,8 +164,7 @@ def _run(tier, seed):
         gexpected += 2 ** ncells(dims)
     g_states = g_trans = 0
     if gcases:
-        dump(gcases, d / "gcases.json")
-        rg = run_tlc("KernelRun", "KernelRun.cfg", env={"VF_PROGS": d / "progs.json", "VF_CASES": d / "gcases.json"}, timeout=7200)
+        rg = machine_chunks(programs, gcases, d, "c04g", per_chunk=20)   # only the programs these kernels need
         if len(rg.lines) != gexpected:
             raise MachineryError(f"C04 (TLC-chosen inputs): {len(rg.lines)} verdicts, {gexpected} expected")
         g_states, g_trans = rg.distinct, rg.generated
@@ -168,7 +176,12 @@ def _run(tier, seed):
                 vio.append(_pipe.violation({**m, "v": l["v"]}, l["v"]["c04"], "machine-all-input-patterns", "C04"))
 
     # native history, validated as a trace
-    bad_kernels = {meta[c]["kernel"] for c, l in lines.items() if l["v"]["c04"] != "ok"}
+    # (a kernel the machine could not judge - unsupported node, values outside the box - still runs natively: its
+    # recorded history is validated below; only kernels with a real machine fault are kept away from native execution)
+    def _inconclusive(v):
+        return "value-range" in v or "unsupported-node" in v
+
+    bad_kernels = {meta[c]["kernel"] for c, l in lines.items() if l["v"]["c04"] != "ok" and not _inconclusive(l["v"]["c04"])}
     tasks = []
     for ki, (k, group, cap) in enumerate(klist):
         if ki in bad_kernels or group == "broadcast-target":
